@@ -16,7 +16,7 @@ SPEC = hdr_spec(
                  "(coverage.load_hypothesis_StoreOK). Not proved: that every prefix of a LATER Save/Clean of a forest leaves StoreOK images (consolidate + branch-file merging), and the "
                  "history below the in-memory window served from the main-chain files — there the enumeration carries the claim. "
                  "In the LINEAR WORLD (Proofs/LinearWorld: every history of tip-extending submissions of any length — across 1000-header file boundaries, the 10000-header prune depth and the automatic clean every 10000 heights — interleaved with Cleans, Saves and Loads of any depth, any number of generations) EVERY prefix of the write sequence of EVERY Save and EVERY Clean loads without error and reports the genesis-only chain (only while no index was ever written), "
-                 "the chain as last stored, or the chain being stored — tip and header at every height (C12_linear_crash_any_save / _any_clean).")
+                 "the chain as last stored, or the chain being stored — tip and header at every height (C12_linear_crash_any_save / _any_clean). Long-chain scripts cross the 1000-header file boundaries, also with the best chain SHRINKING back across one (mark / shorter heavier fork) before the crashed Save or Clean.")
 
 META = dict(
     technique="Lean 4 proof (Load of every consistent storage image is sound; every crash prefix of the first Save of a linear chain loads and is sound; write-order theorems over the storage-event model, tied to the extracted call order) + exhaustive crash-prefix enumeration compared between code and model",
